@@ -156,6 +156,19 @@ static void do_step(const json & st, const json & ctx) {
             if constexpr (!std::is_same_v<F, std::monostate>) { std::ostringstream os; f.dump(os); g_stream = os.str(); }
         }, S("s"));
         g_stream_type = S("s").index();
+        if (st.contains("dumped")) {
+            // the payload of the dump, cell by cell (padding cells included), against the specification's storage block
+            std::size_t n = 0;
+            std::visit([&](auto & f) { using F = std::decay_t<decltype(f)>; if constexpr (!std::is_same_v<F, std::monostate>) n = info<F>::N; }, S("s"));
+            const std::size_t off = 8 + 8 + 8 * n + 8 + 4 + 8, cells = st["dumped"].size();
+            ++g_checks;
+            if (g_stream.size() != off + cells * sizeof(VF_STORE) + 3 * 8) mismatch("lifecycle/dump-length", {{"ctx", ctx}, {"bytes", g_stream.size()}, {"cells", cells}});
+            else for (std::size_t i = 0; i < cells; ++i) {
+                VF_STORE x; std::memcpy(&x, g_stream.data() + off + i * sizeof(VF_STORE), sizeof x);
+                json y = ctx; y["storage_cell"] = i;
+                expect_eq("lifecycle/dump-cell", (double)x, (double)st["dumped"][i].get<long>(), y);
+            }
+        }
     } else if (op == "Load") {
         slot_t & d = S("d");
         std::istringstream is(g_stream);
@@ -300,7 +313,10 @@ static json project(const std::vector<shadow> & sh) {
     return {{"slots", slots}};
 }
 
-static void drive(uint64_t seed, long execs, long nops, const char * path) {
+// focus: every field is a 1-D row-major field of 2 or 3 cells, so that any two live fields can be assigned to one another and
+// long chains of copy / move construction and assignment between fields of DIFFERENT sizes are dense (the histories in which
+// stale sizes, reused buffers and capacities would matter)
+static void drive(uint64_t seed, long execs, long nops, const char * path, bool focus) {
     rng r(seed);
     std::ofstream out(path);
     const char * layouts[] = {"strided", "morton", "morton_portable", "hilbert"};
@@ -327,13 +343,13 @@ static void drive(uint64_t seed, long execs, long nops, const char * path) {
                 auto live = [&](std::size_t i) { return sh[i].st == "live"; };
                 auto assignable = [&](std::size_t i) { return sh[i].st != "dead"; };
                 if (op == 0 && sh[s].st == "dead") {
-                    std::size_t n = 1 + r.below(3);
-                    std::vector<std::size_t> ext(n); std::size_t prod = 1; for (auto & x : ext) { x = 1 + r.below(n == 1 ? 5 : 3); prod *= x; }
+                    std::size_t n = focus ? 1 : 1 + r.below(3);
+                    std::vector<std::size_t> ext(n); std::size_t prod = 1; for (auto & x : ext) { x = focus ? 2 + r.below(2) : 1 + r.below(n == 1 ? 5 : 3); prod *= x; }
                     ev = {{"e", "Construct"}, {"args", {{"s", s + 1}, {"ty", "strided"}, {"ext", ext}, {"size", prod}}}};
                     do_step({{"op", "Construct"}, {"args", ev["args"]}}, {});
                     sh[s] = {"live", "strided", n};
                 } else if (op == 1 && sh[s].st == "dead") {
-                    std::size_t n = 1 + r.below(3); const char * ty = layouts[r.below(3)];
+                    std::size_t n = focus ? 1 : 1 + r.below(3); const char * ty = layouts[focus ? 0 : r.below(3)];
                     ev = {{"e", "DefaultConstruct"}, {"args", {{"s", s + 1}, {"ty", ty}, {"n", n}}}};
                     do_step({{"op", "DefaultConstruct"}, {"args", ev["args"]}}, {});
                     sh[s] = {"unspec", ty, n};
@@ -356,7 +372,7 @@ static void drive(uint64_t seed, long execs, long nops, const char * path) {
                     kill(d);
                     if (d != s) { sh[d] = sh[s]; if (op == 7) { sh[s].st = "moved"; follow(s, d); } }
                     else if (op == 7) sh[s].st = "unspec";
-                } else if ((op == 8 || op == 9) && sh[d].st == "dead" && live(s) && d != s) {
+                } else if ((op == 8 || op == 9) && !focus && sh[d].st == "dead" && live(s) && d != s) {
                     const char * ty2 = layouts[r.below(4)];
                     if (sh[s].ty == ty2 || (std::string(ty2) == "hilbert" && sh[s].n != 2)) continue;
                     const char * nm = op == 8 ? "Convert" : "ConvertMove";
@@ -410,7 +426,7 @@ static void drive(uint64_t seed, long execs, long nops, const char * path) {
 int main(int argc, char ** argv) {
     install_terminate();
     std::string mode = argv[1];
-    if (mode == "drive") { drive(std::strtoull(argv[2], nullptr, 10), std::atol(argv[3]), std::atol(argv[4]), argv[5]); return 0; }
+    if (mode == "drive") { drive(std::strtoull(argv[2], nullptr, 10), std::atol(argv[3]), std::atol(argv[4]), argv[5], argc > 6 && std::string(argv[6]) == "focus"); return 0; }
     if (mode == "replay") {
         std::ifstream in(argv[2]);
         std::string line;
